@@ -610,8 +610,10 @@ class XPathToken(Token[ta.XPathTokenType]):
         if isinstance(op1, AbstractDateTime) and isinstance(op2, AbstractDateTime):
             if context is not None and context.timezone is not None:
                 if op1.tzinfo is None:
+                    op1 = copy(op1)  # do not modify the caller's value
                     op1.tzinfo = context.timezone
                 if op2.tzinfo is None:
+                    op2 = copy(op2)
                     op2.tzinfo = context.timezone
         else:
             if isinstance(op1, UntypedAtomic):
